@@ -504,6 +504,7 @@ bool qvector_setat(qvector_t *vector, int index, const void *data) {
     vector->lock(vector);
     void *old_data = get_at(vector, index, false);
     if (old_data == NULL) {
+        vector->unlock(vector);
         return false;
     }
     memcpy(old_data, data, vector->objsize);
